@@ -14,6 +14,8 @@ SITES = {
     "from_str": "NetworkAddress::from_str",
     "from_four_words": "NetworkAddress::from_four_words",
     "bootstrap_decode": "bootstrap::WordEncoder::decode_to_socket_addr",
+    "wire_reply_dial_b_dials_c": "peer info->routing table->find-node reply->dial_candidate (replying node dialled the peer)",
+    "wire_reply_dial_c_dials_b": "peer info->routing table->find-node reply->dial_candidate (replying node accepted the peer)",
 }
 
 
@@ -35,7 +37,8 @@ def run(tier):
     # 2. impl -> spec
     trace = os.path.join(wd, "trace.ndjson")
     samples, sweeps = (20_000_000, 8) if big else (1_000_000, 3)
-    vlib.run_harness(["c19", "drive", "out=" + trace, "samples=%d" % samples, "sweep_ips=%d" % sweeps], timeout=3000)
+    vlib.run_harness(["c19", "drive", "out=" + trace, "samples=%d" % samples, "sweep_ips=%d" % sweeps,
+                      "net_addrs=%d" % (80 if big else 12)], timeout=3000)
     res, tr = vlib.validate_trace(T[0], T[1], trace, os.path.join(wd, "out.json"))
     if res["consumed"] != res["total"]:
         raise vlib.ToolError("trace not fully consumed")
@@ -70,8 +73,17 @@ def run(tier):
     if vacuous and not _unknown_violations(rep):
         raise vlib.ToolError("driver produced no %s event" % ", ".join(vacuous))
     _selftest_guarded(rep, selftest, recs, wd)
-    rep.assumptions.append("consumers multiaddr_from_address and dial_candidate are private: what they accept is taken from reading "
-                           "(AddressRules!AcceptsByReading); producer socket_addr_to_multiaddr is private: its format string is reproduced")
+    wire = [e for e in recs if e["ev"] == "RT" and e["site"].startswith("wire_reply_dial")]
+    dial = [e for e in recs if e["ev"] == "Consume" and e["consumer"] == "Dial"]
+    if (not wire or not dial) and not _unknown_violations(rep):
+        raise vlib.ToolError("driver produced no wire-path observation")
+    rep.coverage["wire_path"] = {"end_to_end_addresses": len(wire), "dial_probes": len(dial),
+                                 "forms_in_replies": sorted({e["form"] for e in recs if e["ev"] == "Produce" and e["producer"] == "Reply"})}
+    rep.sample({"wire_path": wire[:2] + dial[:2]})
+    rep.assumptions.append("consumer multiaddr_from_address is private and fed only by the transport: what it accepts is taken from reading "
+                           "(AddressRules!AcceptsByReading), its use is covered end to end by the wire path; producer "
+                           "socket_addr_to_multiaddr is private: its format string is reproduced; the in-memory hub resolves a dialled "
+                           "string like the QUIC path does (it must parse as a SocketAddr)")
     return rep.finish(
         rule="case = one observation: (site, address, outcome class) of a round trip, one run of equal outcomes in a port sweep, one "
              "variant / malformed string / producer string / consumer probe; distinct by content; sampled round trips that came back "
@@ -99,7 +111,14 @@ def selftest(recs, wd):
         if e["ev"] == "Consume" and e["consumer"] == "FromFourWords" and e["form"] == "words":
             e["out"] = "error"
     d = [e for e in cut if not (e["ev"] == "Produce" and e["producer"] == "FourWords")]
-    variants = [("ref", cut), ("rt-different", a), ("malformed-accepted", b), ("consumer-deaf", c), ("producer-silent", d)]
+    e5 = copy.deepcopy(cut)
+    for e in e5:
+        if e["ev"] == "Consume" and e["consumer"] == "Dial" and e["form"] == "sockWords":
+            e["out"] = "error"
+    f6 = copy.deepcopy(cut)
+    next(e for e in f6 if e["ev"] == "RT" and e["site"].startswith("wire_reply_dial"))["out"] = "different"
+    variants = [("ref", cut), ("rt-different", a), ("malformed-accepted", b), ("consumer-deaf", c), ("producer-silent", d),
+                ("dial-deaf", e5), ("wire-different", f6)]
     p = os.path.join(wd, "selftest.ndjson")
     vlib.write_ndjson(p, [e for _, t in variants for e in t])
     got, _ = vlib.validate_trace(T[0], T[1], p, os.path.join(wd, "selftest.json"))
